@@ -301,6 +301,8 @@ class Gen:
             frame = C.ip_packet(self.rng.choice(others).tun_ip, pay)
         elif r < 0.9:
             frame = C.ip_packet(0x08080808, pay)
+            if self.rng.random() < 0.2:
+                frame += bytes(self.rng.randrange(256) for _ in range(self.rng.choice([1, 2, 18, 40])))      # longer than its IPv4 total length says
         elif r < 0.95:
             frame = b"\0\0\x08\0" + pay[:10]
         else:
